@@ -285,6 +285,8 @@ structure Req where
   fs : FsPlan
   ops : OpsClass
   map : MapClass
+  opsSelfDelim : Bool   -- the operations JSON value ends with `}` (no look-ahead needed to end it)
+  mapSelfDelim : Bool
   parts : List Part
   term : Term
 
@@ -408,13 +410,19 @@ def fileLoop (g : Guards) (req : Req) : St → Nat → List Part → St × Exit
 def nextOk (req : Req) (st : St) (p : Part) : Bool :=
   p.fault != .next && st.off + p.hdr ≤ req.cfg.budget
 
+/-- Can `json.Decoder` finish the value of a form field whose content starts at `start`? The content
+must be within the budget; a value that is not closed by `}` (the literal `null`) is only complete
+when the decoder sees the end of the part, i.e. the closing delimiter is readable. -/
+def fieldDecodable (req : Req) (start : Nat) (p : Part) (selfDelim last : Bool) : Bool :=
+  start + p.size ≤ req.cfg.budget && (selfDelim || contentReadable req start p last)
+
 /-- second form field: `map` -/
 def mapStage (g : Guards) (req : Req) (st : St) : List Part → St × Exit
   | [] => (st, .secondNotMap)
   | p1 :: files =>
     if !(nextOk req st p1) || p1.name != "map".toList then (st, .secondNotMap) else
     let st := { st with off := st.off + p1.hdr }
-    if st.off + p1.size ≤ req.cfg.budget then
+    if fieldDecodable req st.off p1 req.mapSelfDelim files.isEmpty then
       match req.map with
       | .err => (st, .mapDecode)
       | .ok m => fileLoop g req { st with off := st.off + p1.size, pending := m } 2 files
@@ -426,7 +434,7 @@ def opsStage (g : Guards) (req : Req) (st : St) : List Part → St × Exit
   | p0 :: rest =>
     if !(nextOk req st p0) || p0.name != "operations".toList then (st, .firstNotOps) else
     let st := { st with off := st.off + p0.hdr }
-    if st.off + p0.size ≤ req.cfg.budget then
+    if fieldDecodable req st.off p0 req.opsSelfDelim rest.isEmpty then
       match req.ops with
       | .err => (st, .opsDecode)
       | .ok vars => mapStage g req { st with off := st.off + p0.size, vars := vars } rest
